@@ -332,7 +332,7 @@ def make_native(yp, unify, rows, arity, style, yield_value, ctl, name=None):
     ctl: dict with 'calls' (invocation counter), 'fault' (None or (j, phase)), 'exc'
     (the exception object to raise), 'args' (log of argument type names per call)."""
     from . import terms as _TM
-    if arity > 3 and style in ('bound-method', 'callable-object', 'delegate'):
+    if arity > 3 and style in ('bound-method', 'callable-object', 'delegate', 'delegate-bounded'):
         style = 'inferred'          # (those wrappers are written out for arities 0-3 only)
     trows = [[_TM.T(x) for x in row] for row in rows]
     # style 'prebuilt': ground rows are built once, at registration, and reused by every invocation (a Python
@@ -373,6 +373,39 @@ def make_native(yp, unify, rows, arity, style, yield_value, ctl, name=None):
                         raise ctl['exc']
         finally:
             ctl['live'] -= 1
+    if style == 'delegate-bounded' and name is not None:
+        # like 'delegate', but the nested query is run to its end by evaluate_bounded first (answers collected as
+        # resolved copies), then the predicate unifies its arguments with each collected answer
+        import sys as _sys
+
+        def impl_b(*args):
+            ctl['calls'] += 1
+            me = ctl['calls']
+            ctl['args'].append(tuple(type(a).__name__ for a in args))
+            ctl['live'] = ctl.get('live', 0) + 1
+            try:
+                if ctl['fault'] is not None and tuple(ctl['fault'][:2]) == (me, 'pre'):
+                    ctl['fired'] = ctl.get('fired', 0) + 1
+                    raise ctl['exc']
+                fresh = [yp.variable() for _ in args]
+                found = yp.evaluate_bounded(yp.query(name + '_impl', fresh), lambda _: [v.get_value() for v in fresh], recursion_limit=_sys.getrecursionlimit())
+
+                def rec(i, row):
+                    if i == len(args):
+                        yield yield_value
+                    else:
+                        for _ in unify(args[i], row[i]):
+                            yield from rec(i + 1, row)
+                for row in found:
+                    for v in rec(0, row):
+                        yield v
+                        if ctl['fault'] is not None and tuple(ctl['fault'][:2]) == (me, 'resume'):
+                            ctl['fired'] = ctl.get('fired', 0) + 1
+                            raise ctl['exc']
+            finally:
+                ctl['live'] -= 1
+        wr = {0: lambda: impl_b(), 1: lambda a: impl_b(a), 2: lambda a, b: impl_b(a, b), 3: lambda a, b, c: impl_b(a, b, c)}
+        return wr[arity], None
     if style == 'delegate' and name is not None:
         # the predicate gets its solutions by running a query of its own on the engine (re-entrant use of the API
         # from inside a user predicate): the facts live in the compiled predicate <name>_impl
